@@ -10,7 +10,7 @@
    of the cycle by the inner one: same expression (by [wf], an index determines its body),
    same start, same end. *)
 From Coq Require Import String List NArith Bool Arith Lia.
-From Parsley Require Import Obs Base Grammar Engine EngineFacts SetMapFacts Spec Complete.
+From Parsley Require Import Obs Base Grammar Engine TermFacts EngineFacts SetMapFacts Spec Complete.
 Import ListNotations.
 Open Scope N_scope.
 
@@ -101,13 +101,13 @@ Section Pump.
 
   (* ---------- where derivations end ---------- *)
   Lemma term_end t pos n : term_parse inp t pos = ([n], None) ->
-    node_rpos n = pos + 1 /\ (i_offset inp <= pos -> pos + 1 <= fend).
+    pos <= node_rpos n /\ (i_offset inp <= pos -> node_rpos n <= fend).
   Proof.
-    destruct t as [ch]. unfold term_parse. destruct (byte_at inp pos) as [b|] eqn:Eb; [|discriminate].
-    destruct (b =? ch); [|discriminate]. intros H. inversion H; subst. split; [reflexivity|].
-    intros Hle. unfold byte_at, nth_N in Eb.
-    assert (Hlt : (N.to_nat (pos - i_offset inp) < length (i_data inp))%nat) by (apply nth_error_Some; congruence).
-    unfold i_len, len_N. lia.
+    intros H. destruct t as [ch|l].
+    - apply term_parse_rune_node in H. destruct H as (_ & -> & Hb). cbn [node_rpos]. split; [lia|].
+      intros Hlo. exact (byte_at_in_file inp pos ch Hlo Hb).
+    - apply term_parse_lit_node in H. destruct H as (_ & tok & v & r & -> & _ & Hle & Hhi & _).
+      cbn [node_rpos]. split; [exact Hle|intros _; exact Hhi].
   Qed.
 
   Lemma valid_end_both :
@@ -120,8 +120,8 @@ Section Pump.
       induction H using valid_ind2 with
         (P0 := fun k ps depth pos ds => pos <= seq_end pos ds /\ (in_file pos -> seq_end pos ds <= fend));
         try (unfold dend; cbn [yield node_rpos]; split; [lia|intros [? ?]; lia]); try exact IHvalid.
-      - (* VTerm *) destruct (term_end _ _ _ H) as [A B]. unfold dend; cbn [yield]. rewrite A.
-        split; [lia|intros [Hlo _]; apply B, Hlo].
+      - (* VTerm *) destruct (term_end _ _ _ H) as [A B]. unfold dend; cbn [yield].
+        split; [exact A|intros [Hlo _]; apply B, Hlo].
       - (* VSeq *) rewrite dend_DSeq. exact IHvalid.
       - (* VSnil *) cbn [seq_end]. split; [lia|intros [? ?]; lia].
       - (* VScons *) cbn [seq_end]. destruct IHvalid as [A B]. destruct IHvalid0 as [A0 B0].
@@ -416,7 +416,7 @@ Qed.
 (* a cyclic grammar, P -> SEQ[P] | a on "a": infinitely many trees.  The tree with three nested SEQ
    is a valid derivation with a unit cycle; it is NOT returned (so [nopump] cannot be dropped from
    [C01_complete_trees]), while its end position is (as [C01_complete_ends] promises). *)
-Definition cy_inp : input := {| i_data := [97]; i_offset := 1 |}.
+Definition cy_inp : input := (mk_input [97] 1).
 Definition cy_alt : list pexpr := [PRef 0].
 Definition cy_body : pexpr := PAny [PSeq SeqOf INone false None cy_alt; PTerm (TRune 97)].
 Definition cy_rules : list pexpr := [PMemo 1 cy_body].
